@@ -58,7 +58,7 @@ def proxied_worker(args, scratch):
         if own is not None and req.header("x-vf-id") is None:
             return own
         return wproxy.World.default_handler(name, req)
-    w = wproxy.World(scratch, handler=handler)
+    w = wproxy.World(scratch, handler=handler, env={"GPA_VERIF_DELAY": "get_key:300:800", "GPA_VERIF_DELAY_SEED": str(args["shard"] + 11)} if args["shard"] % 2 == 0 else None)
     try:
         root = w.identity("root", "helper", [])
         keys = {}
@@ -67,7 +67,43 @@ def proxied_worker(args, scratch):
         keys[guid] = secret
         w.key(guid, secret)
         if args["shard"] % 2 == 0:
-            w.shim.call("event_reader_start", dir=scratch + "/events", interval_ms=40, delay_start=False)
+            w.shim.call("event_reader_start", dir=scratch + "/events", interval_ms=5, delay_start=False)
+        import threading
+        slow = []
+
+        def slow_upload(ci):
+            # the request head arrives shortly before a full second, the body tail shortly after it: what the host receives must still verify
+            try:
+                c = w.open("other", root)
+                vid = "c04-slow-%d-%d" % (args["shard"], ci)
+                body = b"s" * 2000
+                raw = rawhttp.build_request("POST", "/slow/upload?i=%d" % ci, [("x-vf-id", vid)], body)
+                frac = time.time() % 1.0
+                time.sleep((0.93 - frac) % 1.0)
+                c.send(raw[:-1000])
+                time.sleep(0.25)
+                c.send(raw[-1000:])
+                r_ = c.read_response(b"POST")
+                c.close()
+                slow.append((vid, r_.status))
+            except Exception as e:  # noqa
+                slow.append(("error", repr(e)))
+        slow_threads = [threading.Thread(target=slow_upload, args=(i,)) for i in range(4)] if args["shard"] % 2 == 1 else []
+        for t in slow_threads:
+            t.start()
+        for t in slow_threads:
+            t.join()        # before any key change: these must verify under the one latched key
+        for vid, st in slow:
+            res["evaluations"] += 1
+            if vid == "error":
+                res["violations"].append(["slow-upload-failed", {"err": st}]); continue
+            ups = w.upstream(vid)
+            v, detail = sig.verify(ups[0], keys) if ups else ("not-relayed", None)
+            bump("slow_uploads_crossing_a_second_boundary")
+            res["nontrivial"].append(vid)
+            if v not in ("ok", "ok-lenient"):
+                res["violations"].append(["proxied-signature-%s:body-upload-crossing-a-second-boundary" % v,
+                                          {"id": vid, "received_head": ups[0].raw_head.decode("latin-1") if ups else None, "detail": str(detail)}])
         conn, left = None, 0
         current_guid = guid
         for n in range(args["requests"]):
@@ -149,6 +185,15 @@ def proxied_worker(args, scratch):
                 res["samples"].append(wit)
         if conn:
             conn.close()
+        # the agent's own calls while the key keeper replaces the key at a high rate: announced id and MAC must belong together
+        if args["shard"] % 2 == 0:
+            rot = []
+            for i in range(400):
+                g = "aaaaaaaa-ffff-4000-8000-%012x" % (args["shard"] * 1000 + i)
+                keys[g] = "%064x" % r.getrandbits(256)
+                rot.append({"authorizationScheme": "Azure-HMAC-SHA256", "guid": g, "incarnationId": i, "issued": "2024-01-01T00:00:00Z", "key": keys[g]})
+            w.shim.call("rotate_keys", timeout=120, keys=rot, period_us=2500, clear_every=0)
+            bump("own_call_phase_key_generations", len(rot))
         # the agent's own calls (goal state, shared config, instance metadata) signed by build_request
         time.sleep(0.3)
         for name in ("wireserver", "imds"):
